@@ -274,12 +274,20 @@ impl ClientVaultStorage for ClientFileSystemStorage {
         let vault_path = self.paths.vault_path(folder_id);
         if vfs::try_exists(&vault_path).await? {
             vfs::remove_file(&vault_path).await?;
+            #[cfg(sos_verif)]
+            sos_core::verif_hooks::probe(
+                "fs_storage.remove_vault.vault_removed",
+            );
         }
 
         // Remove the local event log file
         let event_log_path = self.paths.event_log_path(folder_id);
         if vfs::try_exists(&event_log_path).await? {
             vfs::remove_file(&event_log_path).await?;
+            #[cfg(sos_verif)]
+            sos_core::verif_hooks::probe(
+                "fs_storage.remove_vault.events_removed",
+            );
         }
         Ok(())
     }
